@@ -321,6 +321,7 @@ def handleBox (args impl : List String) : String :=
   | "conv" :: a => handleConv a impl
   | "poly" :: a => handlePoly a impl
   | "polystale" :: a => handlePoly a impl
+  | "polyregen" :: a => handlePoly a impl   -- `gen_vertices()` again after the fields changed: the carried polygon is the current rectangle
   | "polyrot" :: a => handlePolyRot a impl
   | "eq" :: a => handleEq a impl
   | "beq" :: a => handleBeq a impl
